@@ -65,6 +65,7 @@ pub open spec fn is_ws(b: u8) -> bool { b == 32 || b == 10 || b == 13 || b == 9 
 pub open spec fn span_ok(s: Span, n: int) -> bool { s.start <= s.end <= n }
 // ASCII bytes at which attribute keys / values / tag names end (each is a character boundary of valid UTF-8)
 pub open spec fn is_val_delim(b: u8) -> bool { is_ws(b) || b == 62 || b == 34 || b == 39 }
+pub open spec fn is_name_delim(b: u8) -> bool { is_ws(b) || b == 47 || b == 62 }
 pub open spec fn is_key_delim(b: u8) -> bool { is_ws(b) || b == 47 || b == 61 || b == 62 }
 
 pub open spec fn lower_byte(b: u8) -> u8 { if 65 <= b <= 90 { (b + 32) as u8 } else { b } }
@@ -183,6 +184,8 @@ impl Tokenizer {
     //@| ensures final(self).wf(), final(self).frame(old(self)),
     //@|     final(self).raw.end >= old(self).raw.end,
     //@|     final(self).data.start == old(self).raw.end - 1, final(self).data.start < final(self).data.end <= final(self).raw.end,
+    //@|     // accessor clause: the name span ends at the end of input (error) or exactly at an ASCII delimiter, never inside a multi-byte character
+    //@|     final(self).err.is_none() ==> final(self).data.end < final(self).reader.len() && is_name_delim(final(self).reader[final(self).data.end as int]),
     //@| loop 0: invariant self.wf(), self.frame(old(self)), self.raw.end >= old(self).raw.end, self.err.is_none(), self.data.start == old(self).raw.end - 1,
     //@|     decreases self.left(),
 
